@@ -437,6 +437,22 @@ NextCore(s, e) ==
 
 Next(s, e) == [NextCore(s, e) EXCEPT !.nops = s.nops + 1]
 
+(* Bulk population of a directory (event "bulk"): n CREATEs of new names in one directory, all acknowledged NFS3_OK, *)
+(* issued by the driver without one trace event each (directories of tens of thousands of entries). e.map: name ->   *)
+(* index, e.fhs / e.ids: the handle and file id returned for that index. The effect is that of the n calls: n new    *)
+(* empty regular files, all durable (CREATE is a stable operation).                                                   *)
+BulkOk(s, e) == /\ ObjOf(s, e.fh) # 0 /\ s.objs[ObjOf(s, e.fh)].kind = DIR
+                /\ DOMAIN e.map \cap Names(s.objs[ObjOf(s, e.fh)]) = {}
+                /\ s.hist = <<>>
+Bulk(s, e) ==
+  LET o == ObjOf(s, e.fh)
+      n == Len(e.fhs)
+      ents2 == [nm \in DOMAIN e.map |-> s.next + e.map[nm] - 1]
+      new == [i \in s.next..(s.next + n - 1) |-> MkObj(REG, e.fhs[i - s.next + 1], e.ids[i - s.next + 1], 0)]
+      objs2 == [s.objs EXCEPT ![o].ents = @ @@ ents2] @@ new
+  IN [s EXCEPT !.objs = objs2, !.next = @ + n, !.issued = @ \cup {e.fhs[i] : i \in 1..n},
+               !.durable = objs2, !.sess = SessTrack(@, s.objs, objs2), !.nops = @ + n]
+
 (*--------------------------------------------------------------------------*)
 (* Dumps: the whole tree as seen through the API                               *)
 
